@@ -117,7 +117,11 @@ AtomicMove<SlotType, BUFFER_SIZE> {
 
     #[inline(always)]
     fn available_elements_count(&self) -> usize {
-        self.tail.load(Relaxed).overflowing_sub(self.head.load(Relaxed)).0 as usize
+        // `head` is read first: `tail` never falls behind a `head` read earlier, so the difference cannot go "negative" (and wrap to ~2^32)
+        // when elements are published & consumed between the two reads; it is also never reported above the capacity
+        let head = self.head.load(Relaxed);
+        let tail = self.tail.load(Relaxed);
+        (tail.overflowing_sub(head).0 as usize).min(BUFFER_SIZE)
     }
 
     fn max_size(&self) -> usize {
